@@ -4,25 +4,27 @@ E1 over a *piece* alphabet that mixes well-formed symbols with malformed materia
 arbitrary text, not SELFIES) x the four (compatible, attribute) flag combinations, plus complete parametric families
 in the unbounded dimensions (nesting depth, chain length, number of fragments).
 """
+import functools
 import signal
 
 from mc import enum_strings as E1
 from mc.runner import Result, h64
 
 PROPERTY = "C08"
+OWN_WATCHDOG = True      # per-call / per-shard watchdogs below (SIGALRM is used by this module itself)
 RULE = ("every concatenation of <= L pieces from the piece alphabet (prefix tree) x 4 flag combinations, and every "
         "member of each parametric family; non-trivial = distinct (flags, outcome class, output) triples")
 ASSUMPTIONS = [
     "every worker first decodes every piece under the table {'?': 12} and then installs the default table, so totality is "
     "checked in a library with warm caches filled under a different table (C11 explores histories systematically)",
-    "non-termination is observed as 'no result within a watchdog of 20 s + 1 s per 100 input characters'",
+    "non-termination is observed as 'no result within a watchdog of 5 s + 1 s per 50 input characters'",
     "the constraint state is observed through get_semantic_constraints() after every call and through the "
     "module-state fingerprint once per shard",
 ]
 
 PIECES = ["[C]", "[=O]", "[Branch1]", "[Ring1]", "[epsilon]", "[nop]", ".",
           "[", "]", "[[", "[C", "C]", "..", " ", "\n", "[]", "[.]", "[nop", "x", "[Branch4]", "[C+0]", "[CH10]",
-          "[٣C]", "[C@@@]", "[Branch1_1]", "[Expl=Ring1]", "[C@@Hexpl]", "expl]", "_1]", "[²Cexpl]", "[OH3]", "[CH5]"]
+          "[٣C]", "[C@@@]", "[Branch1_1]", "[Expl=Ring1]", "[C@@Hexpl]", "expl]", "_1]", "[²Cexpl]", "[OH3]", "[CH5]", "[CH4]"]
 PIECES2 = ["[CH4]", "[OH2]", "[N]", "[#Branch2]", "[=Ring3]", "[-/Ring1]", "[/C]", "[", "]", "[expl]", "[=expl]", "[Hexpl]", "ch1]",
            "ng1]", "[epsilon", "eps", "[\x00]", "[\ud800]", "[C-٣]", "[999999999999999999999C]", "[CH٣]",
            "[C+999999999999999999999]", "\t", "[=]", "[#]", "[/]"]
@@ -30,6 +32,7 @@ ALPH = {"pieces": PIECES, "pieces2": PIECES2}
 FLAGS = [(c, a) for c in (False, True) for a in (False, True)]
 
 
+@functools.lru_cache(maxsize=None)
 def families(tier):
     thorough = tier == "thorough"
     D = 1200
@@ -79,6 +82,7 @@ _SF = None
 _TABLE0 = None
 
 
+_TIMEOUTS = [0]          # a shard stops after 3 watchdog expiries (each costs >= 20 s); the rest is reported as a cap
 _SHARD_TIMER = [False]   # short strings of a shard share one watchdog (600 s per shard) instead of one timer per call
 
 
@@ -117,7 +121,7 @@ def innermost_selfies_frame(e):
 
 def call(s, compatible, attribute):
     """returns (class, detail, output)"""
-    budget = 20 + len(s) / 100.0
+    budget = 5 + len(s) / 50.0
     timed = len(s) > 200 or not _SHARD_TIMER[0]
     if timed:
         signal.setitimer(signal.ITIMER_REAL, budget)
@@ -149,6 +153,8 @@ def check(s, r, extra=None):
         r.evaluations += 1
         r.transitions += 1
         cls, detail, outp = call(s, c, a)
+        if cls == "timeout":
+            _TIMEOUTS[0] += 1
         if cls not in ("ok", "DecoderError"):
             allok = False
             case = {"input": s if len(s) <= 400 else None, "compatible": c, "attribute": a}
@@ -191,8 +197,12 @@ def run(task):
     else:
         _, fi, lo, hi, tier = arg
         fname, members = families(tier)[fi]
+        _TIMEOUTS[0] = 0
         for label, s in members[lo:hi]:
             check(s, r, {"family": fname, "member": label})
+            if _TIMEOUTS[0] >= 3:
+                r.caps.append("shard of family %s stopped after 3 watchdog expiries" % fname)
+                break
         if lo == 0:
             r.sample({"scope": scope, "member": members[0][0], "input": members[0][1][:100]})
     if hist_explorer.config_fingerprint() != fp0:
